@@ -351,6 +351,10 @@ def resetall_rule(ctx, rep, rule="C05.RESETALL"):
 def check(ctx, rep):
     from . import metarules, shared
     _check_main(ctx, rep)
+    from . import metarules, r5rules
+    r5rules.setattr_rules(ctx, rep, "C05.DUNDER", ("forward", "prepare", "default"))
+    r5rules.varkw_not_rebound(ctx, rep, "C05.KW")
+    r5rules.forward_verbatim(ctx, rep, "C05.FWD")
     shared.own_namespace_lookups(ctx, rep, "C05.NS")
     shared.unused_params(ctx, rep, "C05.PARAM", ["spec_classes.utils.mutation", "spec_classes.methods.scalar", "spec_classes.methods.toplevel"])
     metarules.preparer_registration(ctx, rep, "C05.PREP")
